@@ -105,11 +105,14 @@ def read_view(db, fp, problem=None):
     finally:
         con.close()
     if problem is not None:
-        ev["problem_ok"] = (view.name == problem.name and json.dumps(view.parameters, sort_keys=True) == json.dumps(problem.parameters, sort_keys=True)
+        ev["problem_ok"] = (view.name == problem.name and type(view.name) is type(problem.name)
+                            and getattr(view, "description", problem.description) == problem.description and json.dumps(view.parameters, sort_keys=True) == json.dumps(problem.parameters, sort_keys=True)
                             and json.dumps(view.costs, sort_keys=True) == json.dumps(problem.costs, sort_keys=True))
     return ev
 
 
+# problem names / descriptions: ordinary text, and text that looks like a number, a JSON token or nothing at all (the store keeps TEXT)
+PNAMES = ["store test ü", "2024", "007", "12.50", "1e5", "null", " padded ", "-0", "0x1F", "Infinity"]
 NASTY = [0.0, -0.0, 1.0, -1.0, 0.1, 1 / 3, 1e-300, 5e-324, 1.7976931348623157e308, 2.2250738585072014e-308, float("inf"), float("-inf"),
          123456.78901234567, 0.30000000000000004, 1e21, 1e-7, 9007199254740993.0]
 
@@ -177,7 +180,7 @@ class Histories(Part):
             if len(behs) > cap:
                 behs = rng.sample(behs, cap)
             for b in behs:
-                cases.append({"kind": "api", "hist": json.loads(b), "cseed": rng.randrange(1 << 30)})
+                cases.append({"kind": "api", "hist": json.loads(b), "cseed": rng.randrange(1 << 30), "pname": len(cases) % len(PNAMES)})
         for alg in ("nsga2", "epsmoea", "omopso", "smpso", "psoga", "sweep", "scipy", "nlopt"):
             for _ in range(1 if ctx.quick else 25):
                 cases.append({"kind": "run", "alg": alg, "n": rng.randint(3, 6), "g": rng.randint(1, 3), "cseed": rng.randrange(1 << 30)})
@@ -209,7 +212,8 @@ class Histories(Part):
         for i, p in enumerate(problem.parameters):
             p['name'] = ['width', 'angle', 'height'][i] if npar == 3 else 'x_%d' % (i + 1)
         problem.parameters[0]['precision'] = 1e-3
-        problem.name = "store test ü"
+        problem.name = PNAMES[case.get("pname", 0)]
+        problem.description = PNAMES[(case.get("pname", 0) * 3 + 1) % len(PNAMES)]
         if rng.random() < 0.3:
             # the path already holds the store of ANOTHER problem (an earlier study): opened with mode="rewrite" the file describes this one
             other = absx.make_problem(1, bounds=[[0.0, 9.0]], evaluate=lambda i: [0.0], costs=[{'name': 'old_cost', 'criteria': 'minimize'}])
